@@ -2,6 +2,8 @@ import MidnightZK.Model.Common
 import MidnightZK.Model.C03.Binding
 import MidnightZK.Model.C03.Absorb
 import MidnightZK.Model.C03.VK
+import MidnightZK.Model.C03.Batch
+import MidnightZK.Model.C03.VKView
 import MidnightZK.Model.C01.Parse
 /-! Line-protocol handler of property C03. -/
 namespace MidnightZK.C03.Driver
@@ -111,6 +113,36 @@ def answer (line : String) : String :=
         let used := (tys.map elemSize).foldl (· + ·) 0
         if proof.length = used then s!"ok {tys.length}" else s!"trailing {proof.length - used}"
     | _, _, _ => "bad-op"
+  | "verifyparse" :: rest =>
+    -- `zk_stdlib::verify` (BlstPLONK::verify) at the parsing level
+    match C01.Parse.parseShape? rest, C01.Parse.parseCfg? rest, (C01.Parse.kv rest "proof").bind hexBytes? with
+    | some sh, some cfg, some proof =>
+      if (verifyParse g1Dec (verifierSchedule sh cfg) proof).isSome then "ok" else "reject"
+    | _, _, _ => "bad-op"
+  | "batchparse" :: rest =>
+    -- `zk_stdlib::batch_verify` at the parsing level, all members under the same key
+    match C01.Parse.parseShape? rest, C01.Parse.parseCfg? rest,
+          (C01.Parse.kv rest "proofs").bind fun s => (s.splitOn ";").mapM hexBytes? with
+    | some sh, some cfg, some proofs =>
+      let evs := verifierSchedule sh cfg
+      match batchFirstBad g1Dec (proofs.map fun p => (evs, p)) 0 with
+      | some i => s!"reject {i}"
+      | none => "ok"
+    | _, _, _ => "bad-op"
+  | "csdebug" :: rest =>
+    -- the real `format!("{:?}", cs.pinned())`: top-level fields (name:length), names checked against the generated
+    -- order list for this number of challenges
+    match (C01.Parse.kv rest "nch").bind parseNat?, (C01.Parse.kv rest "cs").bind hexBytes? with
+    | some nch, some bs =>
+      match splitDebugStruct bs with
+      | none => "unparsed"
+      | some (name, fields) =>
+        let str := fun (l : List Nat) => String.ofList (l.map Char.ofNat)
+        let names := fields.map fun f => str f.1
+        let body := ",".intercalate (fields.map fun f => s!"{str f.1}:{f.2}")
+        if str name = Gen.csDebugName ∧ names = csDebugFieldNames nch then s!"{str name} {body}"
+        else s!"FIELD-ORDER-MISMATCH model={Gen.csDebugName} {csDebugFieldNames nch} string={str name} {names}"
+    | _, _ => "bad-op"
   | "vkinput" :: rest =>
     match (C01.Parse.kv rest "k").bind parseNat?,
           (C01.Parse.kv rest "fixed").bind (listOf? "," pointOfCoords?),
